@@ -50,8 +50,10 @@ def poo_cfgs(tier, base_id, patterns=("g", "neg", "tied", "peak")):
     return cfgs
 
 
-def gpo_models(chk, tier):
+def gpo_models(chk, tier, small=False):
     pairs = [(N, h) for N in (1, 2, 3, 4) for h in (1, 2, 3)] if tier == "quick" else [(N, h) for N in range(1, 7) for h in range(1, 5)]
+    if small:
+        pairs = [(1, 1), (2, 2), (3, 1), (3, 2)] if tier == "quick" else [(N, h) for N in (1, 2, 3, 4) for h in (1, 2, 3)]
     for (N, h) in pairs:
         if 2 * h * N > (20 if tier == "quick" else 26):
             rew = "{0}" if 2 * h * N > 30 else "{0, 1}"
